@@ -10,8 +10,16 @@
 //         generateSeparationConstraints on every cc in order, as colafd.cpp:976-985 / compound_constraints.cpp:1456-1463;
 //         prints  "OK <naux> (des weight fixed)* F <k> id* C <m> (l r gap eq)*"  or  "ERR idx|cons|other"
 // layout: mode 0 = ConstrainedFDLayout makeFeasible()+run(), 1 = run(), 2 = makeFeasible(),
-//         3 = ConstrainedMajorizationLayout::run();  prints final rectangles and the reported unsatisfiable
-//         constraints (index of the creating compound constraint in the cc list, -1 if none of them).
+//         3 = ConstrainedMajorizationLayout::run();
+//         single-axis runs of ConstrainedFDLayout: 4 = run(true,false), 5 = run(false,true), 6 = makeFeasible()+run(true,false),
+//         7 = makeFeasible()+run(false,true), 8 = run(false,false), 9 = makeFeasible()+run(false,false);
+//         mode+16 = the same with the private switch rungekutta off (the other branch of the do-while body; only reachable
+//         through the private field, used for the control-flow correspondence).
+//         prints final rectangles and the reported unsatisfiable constraints (index of the creating compound constraint in
+//         the cc list, -1 if none of them), and for run() modes "TR <rk> <xAxis> <yAxis> <iterations> <s>": s has one letter per
+//         projection set-up during run() in program order (x / y = CompoundConstraint::updatePosition(dim), the virtual that
+//         moveTo() and applyForcesAndConstraints() both call once after their solve), observed by a constraint-free probe
+//         compound constraint appended to the layout's constraint list just before run().
 #include <cstddef>
 #include <cfloat>
 #include <cstdio>
@@ -30,7 +38,9 @@
 #include <libvpsc/variable.h>
 #include <libvpsc/constraint.h>
 #include <libvpsc/assertions.h>
+#define private public          // read access: ConstrainedFDLayout::ccs, done, rungekutta (after the standard headers)
 #include <libcola/cola.h>
+#undef private
 #include <libcola/compound_constraints.h>
 #include <libcola/exceptions.h>
 
@@ -203,6 +213,17 @@ static void armWatchdog(int secs)
     setitimer(ITIMER_VIRTUAL, &it, nullptr);
 }
 
+// probe: generates no variables and no constraints; logs which dimension is being set up / written back
+struct TraceProbe : public CompoundConstraint {
+    std::string log;
+    TraceProbe() : CompoundConstraint(vpsc::XDIM) {}
+    void generateVariables(const vpsc::Dim, vpsc::Variables &) {}
+    void generateSeparationConstraints(const vpsc::Dim, vpsc::Variables &, vpsc::Constraints &, vpsc::Rectangles &) {}
+    void updatePosition(const vpsc::Dim dim) { log += (dim == vpsc::XDIM ? 'x' : 'y'); }
+    std::string toString(void) const { return "TraceProbe()"; }
+    SubConstraintAlternatives getCurrSubConstraintAlternatives(vpsc::Variables[]) { return SubConstraintAlternatives(); }
+};
+
 static void layoutMode(const Case &c)
 {
     armWatchdog(g_limit);
@@ -212,9 +233,17 @@ static void layoutMode(const Case &c)
     UnsatisfiableConstraintInfos ux, uy;
     std::ostringstream out;
     std::string exc;
+    const int base = c.mode & 15;
+    const bool rkOff = (c.mode & 16) != 0;
+    const bool doMF = (base == 0 || base == 2 || base == 6 || base == 7 || base == 9);
+    const bool doRun = (base == 0 || base == 1 || (base >= 4 && base <= 9));
+    const bool xAxis = (base == 0 || base == 1 || base == 4 || base == 6);
+    const bool yAxis = (base == 0 || base == 1 || base == 5 || base == 7);
+    TraceProbe probe;
+    long iters = -1;
     try {
         if (!build(c, rs, ccs)) { std::cout << "SKIP\n"; return; }
-        if (c.mode == 3) {
+        if (base == 3) {
             ConstrainedMajorizationLayout alg(rs, c.es, nullptr, c.ideal, StandardEdgeLengths, nullptr, nullptr, c.neighbour != 0);
             alg.setConstraints(&ccs);
             if (c.overlap) alg.setAvoidOverlaps(false);
@@ -227,10 +256,16 @@ static void layoutMode(const Case &c)
             if (c.overlap) alg.setAvoidNodeOverlaps(true);
             if (c.neighbour) alg.setUseNeighbourStress(true);
             alg.setUnsatisfiableConstraintInfo(&ux, &uy);
+            if (rkOff) alg.rungekutta = false;
             g_phase = "makeFeasible";
-            if (c.mode == 0 || c.mode == 2) alg.makeFeasible();
+            if (doMF) alg.makeFeasible();
             g_phase = "run";
-            if (c.mode == 0 || c.mode == 1) alg.run();
+            if (doRun) {
+                alg.ccs.push_back(&probe);            // after makeFeasible(): its search never sees the probe
+                struct Pop { ConstrainedFDLayout &a; ~Pop() { a.ccs.pop_back(); } } pop = { alg };
+                alg.run(xAxis, yAxis);
+                iters = alg.done->iterations;
+            }
         }
     } catch (InvalidVariableIndexException &e) { exc = "InvalidVariableIndexException";
     } catch (InvalidConstraint &e) { exc = "InvalidConstraint";
@@ -263,6 +298,8 @@ static void layoutMode(const Case &c)
             out << b;
         }
     }
+    if (doRun && base != 3 && iters >= 0)
+        out << " TR " << (rkOff ? 0 : 1) << " " << (int) xAxis << " " << (int) yAxis << " " << iters << " " << (probe.log.empty() ? "-" : probe.log);
     if (!exc.empty()) { for (size_t i = 0; i < exc.size(); i++) if (exc[i] == '\n') exc[i] = ' '; out << " EXC " << exc; }
     std::cout << out.str() << "\n";
     for (size_t i = 0; i < ux.size(); i++) delete ux[i];
